@@ -60,17 +60,36 @@ class Actors:
         self.emap = []                  # model: event -> method, per class
         self.own = []                   # own __events__ (None: looked up in
                                         # the base, dynamically)
+        self.base2 = []                 # second handler base, if any
         for i, spec in enumerate(config['hclasses']):
             base = spec.get('base')
+            base2 = spec.get('base2') if base is not None else None
             bases = (self.classes[base],) if base is not None else (
                 self.HRoot,)
+            if base2 is not None and base2 != base:
+                bases = bases + (self.classes[base2],)  # two handler bases
+            else:
+                base2 = None
             if spec.get('mixin'):
                 bases = bases + (self.Mixin,)
             # a subclass may override callback methods of its bases
             over = {m: make_method(m, i) for m in spec.get('override', [])}
-            cls = type(f'H{i}', bases, over)
+            try:
+                cls = type(f'H{i}', bases, over)
+            except TypeError:           # no consistent MRO: single base
+                base2 = None
+                bases = tuple(b for b in bases
+                              if b is not self.classes[spec['base2']])
+                cls = type(f'H{i}', bases, over)
+            self.base2.append(base2)
+            if base2 is not None:
+                interp.probes['two_handler_bases'] += 1
             deco = spec.get('deco')
             inherited = dict(self.emap[base]) if base is not None else {}
+            if base2 is not None:
+                # "inherit their bases' event mappings": both of them, the
+                # first base winning where they disagree
+                inherited = {**self.emap[base2], **inherited}
             if deco == 'empty':
                 cls = desper.event_handler()(cls)
                 own = {}
@@ -89,11 +108,14 @@ class Actors:
 
     def mapping(self, i, own=None):
         own = self.own if own is None else own
-        while i is not None:
-            if own[i] is not None:
-                return dict(own[i])
-            i = self.config['hclasses'][i].get('base')
-        return {}
+        if i is None:
+            return {}
+        if own[i] is not None:
+            return dict(own[i])
+        m = self.mapping(self.config['hclasses'][i].get('base'), own)
+        if self.base2[i] is not None:
+            m = {**self.mapping(self.base2[i], own), **m}
+        return m
 
     def redecorate(self, ci, names, maps, dry=False):
         """event_handler applied once more to an existing class: its mapping
@@ -1029,7 +1051,7 @@ WEIGHTS = {
 }
 
 
-def gen_config(prop, rng):
+def gen_config(prop, rng, allow_base2=False):
     nh = rng.randint(1, 4)
     hclasses = []
     for i in range(nh):
@@ -1051,6 +1073,9 @@ def gen_config(prop, rng):
                 names = names + ['on_add']
             deco = {'names': names, 'maps': maps}
         spec = {'base': base, 'mixin': rng.random() < .2, 'deco': deco}
+        if base is not None and i >= 2 and allow_base2 \
+                and rng.random() < .3:
+            spec['base2'] = rng.randrange(i)
         if base is not None and rng.random() < .4:
             spec['override'] = rng.sample(METHODS[:5], rng.randint(1, 3))
         hclasses.append(spec)
@@ -1166,7 +1191,7 @@ def fault_script(kind, rng, state):
 def generate(prop, run_seed, tier='quick', tolerate=frozenset()):
     crng = kernel.stream(run_seed, 'cfg')
     rng = kernel.stream(run_seed, 'gen')
-    cfg = gen_config(prop, crng)
+    cfg = gen_config(prop, crng, allow_base2='K5' not in tolerate)
     weights = dict(WEIGHTS[prop])
     if cfg['dkind'] != 'world':
         weights.pop('attach', None)
